@@ -113,6 +113,12 @@ def snap(v: float) -> Fraction:
     fr = Fraction(v)
     if fr.denominator == 1:
         return fr
+    # a difference of O(1) floats computed natively before the engine saw it (e.g. -1 + 2k/(n-1)) carries the absolute error of its operands:
+    # a rational with a small denominator within 4 ulp of 1 is accepted first (recorded like every snap in the evidence)
+    cand = fr.limit_denominator(2000)
+    if cand != fr and abs(fr) < 4 and abs(cand - fr) <= Fraction(4, 2 ** 52):
+        SNAPPED[repr(v)] = cand
+        return cand
     tol = 4 * abs(fr) * Fraction(1, 2 ** 52)
     for cand in (fr.limit_denominator(10 ** 6), Fraction(repr(v))):
         if cand != fr and abs(cand - fr) <= tol:
